@@ -200,6 +200,41 @@ def family(rng, tier):
         "gni 4 10.1.2.3 25 0x104;rspall rcode=3;run;rspall rcode=3;run" % (a, a), quick=(tier != "quick"))
     add("ghbn-cname-chain", "servers=1",
         "ghbn 1 www.%s 4;rspall an=CNAME:c1.%s+CNAME:c2.%s@c1.%s+A:1.2.3.4@c2.%s+A:1.2.3.5@c2.%s;run" % (m, m, m, m, m, m))
+    # ---- answers carrying CNAME records (1- and 2-link chains): every API whose completion
+    # converts them (alias and target are duplicated one by one); the result must be the
+    # baseline's or the request must fail ----
+    l1 = "CNAME:real.%s+A:1.2.3.4@real.%s+A:1.2.3.5@real.%s" % (m, m, m)
+    # (another address set in every answer: a retry answered by a later step of the script is
+    # then not mistaken for a partial result)
+    l2 = "CNAME:c1.%s+CNAME:c2.%s@c1.%s+A:1.2.4.4@c2.%s" % (m, m, m, m)
+    l1u = "CNAME:real.%s+A:1.2.5.4@real.%s+AAAA:[2001:db8::5]@real.%s" % (m, m, m)
+    l2u = "CNAME:c1.%s+CNAME:c2.%s@c1.%s+A:1.2.6.4@c2.%s+AAAA:[2001:db8::6]@c2.%s" % (m, m, m, m, m)
+    l26 = "CNAME:c1.%s+CNAME:c2.%s@c1.%s+AAAA:[2001:db8::7]@c2.%s" % (m, m, m, m)
+    p1 = "CNAME:3.2.1.10.rev.%s+PTR:host.%s@3.2.1.10.rev.%s" % (m, m, m)
+    arpa6 = "8.0.0.0.0.0.0.0.0.0.0.0.0.0.0.0.0.0.0.0.0.0.0.0.0.0.0.0.0.0.d.f"
+    p2 = "CNAME:%s.r1.%s+CNAME:%s.r2.%s@%s.r1.%s+PTR:host6.%s@%s.r2.%s+PTR:alias6.%s@%s.r2.%s" % (
+        arpa6, m, arpa6, m, arpa6, m, m, arpa6, m, m, arpa6, m)
+    add("cname-lookups", "servers=1",
+        "gai 1 www.%s 4 0x81;rspall an=%s;run;ghbn 2 w2.%s 4;rspall an=%s;run;ghba 3 10.1.2.3;rspall an=%s;run;"
+        "gai 4 w4.%s 0 0x81 http;rspall an=%s;run" % (m, l1, m, l2, p1, m, l2u), quick=True)
+    add("cname-gai-1link", "servers=1",
+        "gai 1 www.%s 4 0x80;rspall an=%s;run;gai 2 w2.%s 4 0x81;rspall an=%s;run;gai 3 w3.%s 0 0x81;rspall an=%s;run;gai 4 w4.%s 0 0x0;rspall an=%s;run"
+        % (m, l1, m, l1, m, l1u, m, l1u))
+    add("cname-gai-2link", "servers=1",
+        "gai 1 www.%s 6 0x80;rspall an=%s;run;gai 2 w2.%s 6 0x81;rspall an=%s;run;gai 3 w3.%s 0 0x81 443;rspall an=%s;run"
+        % (m, l26, m, l26, m, l2u))
+    add("cname-ghbn", "servers=1",
+        "ghbn 1 www.%s 4;rspall an=%s;run;ghbn 2 w2.%s 6;rspall an=%s;run;ghbn 3 w3.%s 0;rspall an=%s;run" % (m, l1, m, l26, m, l2u))
+    add("cname-ptr", "servers=1",
+        "ghba 1 10.1.2.3;rspall an=%s;run;ghba 2 fd00::8;rspall an=%s;run;gni 3 10.1.2.3 80 0x300;rspall an=%s;run;"
+        "gni 4 fd00::8 53 0x310;rspall an=%s;run" % (p1, p2, p1, p2))
+    add("cname-search", "servers=1 domains=a.test,b.test ndots=2",
+        "gai 1 short 4 0x81;rspall rcode=3;run;rspall an=CNAME:real.b.test+A:1.2.3.4@real.b.test;run;"
+        "search 2 other IN A rd;rspall an=CNAME:real.a.test+A:1.2.3.4@real.a.test;run;"
+        "ghbn 3 third 4;rspall an=CNAME:x1.a.test+CNAME:x2.a.test@x1.a.test+A:1.2.3.4@x2.a.test;run")
+    add("cname-legacy-query", "servers=1 flags=noedns",
+        "oquery 1 www.%s IN A;osearch 2 w2.%s IN AAAA;send 3 w3.%s IN A rd;rspall an=%s;run;query 4 w4.%s IN CNAME;rspall an=CNAME:real.%s;run"
+        % (m, m, m, l2u, m, m))
     add("hosts-merge-lines", "servers=1 lookups=fb hosts=%s" % HOSTS2,
         "gai 1 multi.example 0 0x80;ghbn 2 multi.example 4;ghbn 3 multi.example 6;ghba 4 10.7.7.2;ghba 5 fd00::72;"
         "gai 6 other.example 0 0x81;gai 7 multi 4 0x80", quick=True)
@@ -280,6 +315,15 @@ def cb_payload(rest):
     return int(m.group(1)), pay
 
 
+def payload_norm(pay):
+    """what is compared with the baseline: names without case (DNS 0x20 mixes it from the random
+    stream), a legacy answer buffer without its message id and an OPT record without the value
+    of its COOKIE option (random stream again: a submission that failed before has drawn an id,
+    or the client cookie is drawn at another moment)"""
+    pay = re.sub(r"(?<=[{,])10~[0-9a-fA-F]*", "10~*", pay)      # EDNS COOKIE option: random as well
+    return " ".join(w for w in pay.split(" ") if not w.startswith("id=")).lower()
+
+
 def payload_items(pay):
     """members of a result set that a partial answer could be missing: addrinfo nodes,
     hostent addresses"""
@@ -294,6 +338,22 @@ def items_digest(pay):
     return "".join("~" + digest(x)[:4] for x in it)
 
 
+def dialogue_item(l):
+    """the network dialogue of a run: questions put on the wire and datagrams/segments read.
+    (ocaml/allocfail_drv.ml computes the same items for the failing run: a successful callback
+    reached without asking a question or reading a datagram that the baseline run did not ask /
+    read - the run's items are a subsequence of the baseline's - must carry the baseline's
+    payload)"""
+    if l.startswith("TX "):
+        kv = dict(w.split("=", 1) for w in l.split(" ") if "=" in w)
+        return "T%s/%s/%s/%s" % (kv.get("srv", "?"), kv.get("proto", "?"), kv.get("qname", "?").lower(), kv.get("qtype", "?"))
+    if l.startswith("RECVFROM ") or l.startswith("RECV "):
+        m = re.search(r" rc=(\d+)", l)
+        if m and int(m.group(1)) > 0:
+            return "R" + m.group(1)
+    return None
+
+
 def parse_baseline(lines):
     """lines of one case (without the index prefix) -> (total, expect string) or None"""
     total = None
@@ -301,7 +361,11 @@ def parse_baseline(lines):
     toks = {}
     order = []
     api = []
+    dlg = []
     for l in lines:
+        d = dialogue_item(l)
+        if d:
+            dlg.append(d)
         if l.startswith("INIT rc="):
             init = int(l[8:])
         elif l.startswith("REQ t"):
@@ -321,7 +385,7 @@ def parse_baseline(lines):
             if t not in toks:
                 toks[t] = dict(ret="v", cbs=[])
                 order.append(t)
-            toks[t]["cbs"].append("%d.%s%s" % (st, digest(pay), items_digest(pay)))
+            toks[t]["cbs"].append("%d.%s:%d%s" % (st, digest(payload_norm(pay)), len(dlg), items_digest(pay)))
         elif re.match(r"(SETSERVERS|SETSORTLIST|REINIT|SETSOCKFUNCS|SETSERVERSL|SETSERVERSP|SETSERVERSCSV|GETSERVERS|GETSERVERSP|DUP) rc=", l):
             k, rc = l.split(" rc=")
             api.append("%s.%s" % (k, rc.split()[0]))
@@ -334,6 +398,9 @@ def parse_baseline(lines):
         items.append("t%d/%s/%s" % (t, toks[t]["ret"], "+".join(toks[t]["cbs"]) if toks[t]["cbs"] else "-"))
     for a in api:
         items.append("a" + a)
+    # the baseline's network dialogue, one 4-digit digest per item; a callback entry carries
+    # the number of items that preceded it
+    items.append("d" + "".join(digest(d)[:4] for d in dlg))
     return total, ",".join(items)
 
 
